@@ -142,6 +142,120 @@ class HDF5FileSources(Contract):
     }
     AXIS_SOURCES = {'_positionAxis': 0, '_energyAxis': 1}
 
+    # ---- record shape of every dataset vs. layout of the buffer it is written from (C10: each bunch's row holds that
+    # bunch's data; C17: the write reads exactly prod(dims[1:]) elements, contiguously, from the source pointer)
+    # source accessor -> shape of the buffer it returns, outermost first (class invariants PS_valid / EF_valid / KM_valid)
+    SHAPES = {'getData': ['nb', 'nx', 'ny'], 'getProjection': ['nb', 'nx'], 'getBunchLength': ['nb'], 'getEnergySpread': ['nb'], 'getMoment': ['nb'],
+              'getBunchPopulation': ['nb'], 'getCSRSpectrum': ['nb', 'nmax'], 'getCSRPower': ['nb'], 'getForce': ['nb', 'nx'],
+              'getPaddedBunchProfiles': ['nmax'], 'getPaddedWakePotential': ['nmax'], 'physcords': ['np', 'two'], 'kicks': ['two']}
+    # members of HDF5File used as dataset extents -> what their initialiser must compute (checked on the AST)
+    MEMBER_MEANING = {'_nBunches': ('nb', ['nb']), '_psSizeX': ('nx', ['nx']), '_psSizeY': ('ny', ['ny']), '_maxn': ('nmax/2', ['getNMax', '2']),
+                      '_impSize': ('nfreqs/2', ['nFreqs', '2']), '_nParticles': ('np', ['nparticles'])}
+
+    def extent_obligations(self, tu, ctor, ex):
+        from vf.ast import ctor_inits
+        nb, nx, ny, nmax, npart, nfreqs = z3.Ints('nb nx ny nmax np nfreqs')
+        env = {'nb': nb, 'nx': nx, 'ny': ny, 'nmax': nmax, 'np': npart, 'two': I(2), 'nmax/2': nmax / 2, 'nfreqs/2': nfreqs / 2}
+        domain = And(nb >= 1, nx >= 2, ny == nx, nmax >= 2, npart >= 0, nfreqs == nmax)     # the impedance handed to the file is the one of the field
+
+        def ob(label, f, note, tags=frozenset({'C10', 'C17'})):
+            ex.obls.append(Obligation(f'HDF5File#extent.{label}', set(tags), [domain] if not isinstance(f, bool) else [], f if not isinstance(f, bool) else z3.BoolVal(f), 'postcondition', None, note))
+        inits = {i_['anyInit']['name']: i_ for i_ in ctor_inits(ctor) if 'anyInit' in i_}
+        # (1) the size members mean what the extents below assume
+        for m, (meaning, tokens) in sorted(self.MEMBER_MEANING.items()):
+            ini = inits.get(m)
+            if ini is None:
+                raise ExtractionError(f'HDF5File constructor: member {m} not initialised in the initialiser list')
+            names = set()
+            for x in _walk(ini):
+                if x.get('kind') in ('DeclRefExpr',):
+                    names.add((x.get('referencedDecl') or {}).get('name'))
+                if x.get('kind') == 'MemberExpr':
+                    names.add(x.get('name'))
+                if x.get('kind') == 'IntegerLiteral':
+                    names.add(x.get('value'))
+            ob(f'member.{m}', all(t in names for t in tokens), f'{m} is initialised as {meaning} (tokens {tokens}; found {sorted(n for n in names if n)[:8]})')
+        # (2) dims of every dataset, from the first braced list of its _makeDatasetInfo call
+        dims = {}
+        for m, ini in inits.items():
+            calls = [x for x in _walk(ini) if x.get('kind') in ('CallExpr', 'CXXMemberCallExpr') and
+                     any((y.get('referencedDecl') or {}).get('name') == '_makeDatasetInfo' or y.get('name') == '_makeDatasetInfo' for y in _walk(x['inner'][0]))]
+            if not calls:
+                continue
+            lists = [x for x in _walk(calls[0]) if x.get('kind') == 'InitListExpr' and x.get('inner') and all(c.get('kind') != 'InitListExpr' for c in x['inner'])]
+            if not lists:
+                raise ExtractionError(f'HDF5File constructor: extents of dataset {m} not found')
+            toks = []
+            for c in lists[0]['inner']:
+                mem = [y.get('name') for y in _walk(c) if y.get('kind') == 'MemberExpr']
+                lit = [y.get('value') for y in _walk(c) if y.get('kind') == 'IntegerLiteral']
+                toks.append(mem[0] if mem else (int(lit[0]) if lit else '?'))
+            dims[m] = toks
+        if len(dims) < 15:
+            raise ExtractionError(f'HDF5File constructor: only {len(dims)} datasets recognised')
+
+        def sym(tok):
+            if isinstance(tok, int):
+                return I(tok)
+            if tok in self.MEMBER_MEANING:
+                return env[self.MEMBER_MEANING[tok][0]]
+            raise ExtractionError(f'HDF5File: dataset extent {tok} has no stated meaning')
+        # (3) every _appendData(dataset, source): one record = prod(dims[1:]) contiguous elements of the source
+        napp = 0
+        for fname, fl in tu.funcs.items():
+            short = fname.split('::')[-1]
+            if not fname.startswith('vfps::HDF5File::') or not short.startswith('append'):
+                continue
+            for fdef in fl:
+                if short == 'append' and len(params(fdef)) == 2:
+                    continue        # append(const ElectricField*, bool): enforced by its own contract (HDF5AppendField), which also follows the row copy
+                decls = {x['id']: x for x in _walk(fdef) if x.get('kind') == 'VarDecl' and x.get('inner')}
+                for call in _walk(fdef):
+                    if call.get('kind') not in ('CallExpr', 'CXXMemberCallExpr'):
+                        continue
+                    c = call['inner'][0]
+                    while c.get('kind') == 'ImplicitCastExpr':
+                        c = c['inner'][0]
+                    if (c.get('referencedDecl') or {}).get('name') != '_appendData' and c.get('name') != '_appendData':
+                        continue
+                    args = call['inner'][1:]
+                    dsn = [x.get('name') for x in _walk(args[0]) if x.get('kind') == 'MemberExpr']
+                    if not dsn or dsn[0] not in dims:
+                        continue
+                    src = args[1]
+                    for x in _walk(src):
+                        if x.get('kind') == 'DeclRefExpr' and (x.get('referencedDecl') or {}).get('id') in decls:
+                            src = decls[x['referencedDecl']['id']]
+                    names = [x['inner'][0].get('name') for x in _walk(src) if x.get('kind') == 'CXXMemberCallExpr'] + \
+                            [(x.get('referencedDecl') or {}).get('name') for x in _walk(args[1]) if x.get('kind') == 'DeclRefExpr']
+                    shape = next((self.SHAPES[nm] for nm in names if nm in self.SHAPES), None)
+                    rec = dims[dsn[0]][1:]
+                    if shape is None:
+                        if len(rec) == 0:
+                            continue            # scalar record (time axes): written from the address of one value
+                        ob(f'{short}.{dsn[0]}.source_known', False, f'source of dataset {dsn[0]} ({[n for n in names if n][:4]}) has no stated layout')
+                        continue
+                    napp += 1
+                    R = [sym(t) for t in rec]
+                    S = [env[t] for t in shape]
+                    rank_ok = len(R) == len(S)
+                    ob(f'{short}.{dsn[0]}.rank', rank_ok, f'record of {dsn[0]} has extents {rec}, source buffer layout {shape}')
+                    if not rank_ok:
+                        continue
+                    # rows: every dimension but the outermost must equal the source's (otherwise row b of the record is not row b of the source);
+                    # a record consisting of one row may be a prefix of the source row
+                    outer = I(1)
+                    for r_ in R[:-1]:
+                        outer = outer * r_
+                    conds = [Or(outer == 1, R[-1] == S[-1]), R[-1] <= S[-1]]
+                    for i_ in range(1, len(R) - 1):
+                        conds.append(R[i_] == S[i_])
+                    if len(R) > 1:
+                        conds.append(R[0] <= S[0])
+                    ob(f'{short}.{dsn[0]}.rows', And(*conds), f'each row of the record of {dsn[0]} ({rec}) is the corresponding row of the source ({shape}) and the read stays inside the buffer')
+        if napp < 10:
+            raise ExtractionError(f'HDF5File: only {napp} _appendData calls with a known source recognised')
+
     @staticmethod
     def _calls(n, name):
         return [x for x in _walk(n) if x.get('kind') == 'CXXMemberCallExpr' and x['inner'][0].get('name') == name]
@@ -220,6 +334,7 @@ class HDF5FileSources(Contract):
         ctors = tu.funcs.get('vfps::HDF5File::HDF5File', [])
         if len(ctors) != 1:
             raise ExtractionError('HDF5File constructor not found')
+        self.extent_obligations(tu, ctors[0], ex)
         found = {}
         for call in self._calls(ctors[0], 'write'):
             recv = call['inner'][0]['inner'][0]
@@ -237,3 +352,198 @@ class HDF5FileSources(Contract):
         info = {'unit': 'vfps::HDF5File (constructor axis writes, append(ps,t,at))', 'file': self.tu, 'sha': tu.sha, 'cases': 1, 'lines': [None, None], 'extract_s': 0,
                 'note': 'AST facts only: which accessor feeds which dataset; the HDF5 library calls themselves are trusted'}
         return [ex], info
+
+
+# =========================================================================== HDF5File::append(const ElectricField*, bool)  (U25)
+class AppendCapture:
+    """call-site binding of _appendData(dataset, pointer[, count]): the HDF5 write itself is trusted to transfer exactly one
+    record = prod(dims[1:]) contiguous elements starting at the pointer; here the pointer and the buffer contents at the
+    moment of the call are recorded so that the postcondition can say what the record holds"""
+
+    def __call__(self, ex, n, st, objn, argn, this_override=None):
+        ds = [x.get('name') for x in _walk(argn[0]) if x.get('kind') == 'MemberExpr']
+        if not ds:
+            raise ExtractionError(f'{ex.unit}: _appendData on something that is not a dataset member (line {ex.curline})')
+        src = ex.ev(argn[1], st)
+        if not isinstance(src, PtrV) or src.region is None:
+            raise ExtractionError(f'{ex.unit}: _appendData source is not a data pointer (line {ex.curline})')
+        cap = getattr(ex, 'captured', None)
+        if cap is None:
+            cap = ex.captured = {}
+        FL = parse_type_str('float')
+        k = 'ghost.appended.' + ds[0]
+        # guarded by the path condition through the merge of scalars: count how often, remember the last source
+        st.scal[k + '.count'] = IntV(st.scal[k + '.count'].t + 1 if k + '.count' in st.scal else I(1), parse_type_str('long'))
+        st.scal[k + '.off'] = IntV(src.off, parse_type_str('long'))
+        leaves = [key[1] for key in st.arr if key[0] == src.region] or ['']
+        for lf in leaves:
+            st.arr[(k, lf)] = st.array(src.region, lf, FL)
+        st.length[k] = st.len_of(src.region)
+        ex.logw(('s', k + '.count')); ex.logw(('s', k + '.off')); ex.logw(('r', k)); ex.logw(('len', k))
+        cap[ds[0]] = k
+        return VoidV()
+
+
+class HDF5AppendField(Contract):
+    """append(const ElectricField* ef, bool fullspectrum): the record appended to /CSR/Spectrum holds, for every bunch b, the
+    first _maxn samples of THAT bunch's spectrum; the record appended to /CSR/Intensity holds every bunch's power (C10);
+    both reads stay inside the buffers they start in (C17)"""
+    name = 'vfps::HDF5File::append'
+    tu = 'src/IO/HDF5File.cpp'
+    nparams = 2
+    params = ['ef', 'fullspectrum']
+    tags = {'C10', 'C17'}
+    ghosts = {'b': 'int', 'i': 'int'}
+
+    def dims(self, cx):
+        nx, ny, nb = ps_globals(cx)
+        ef = cx.arg('ef').name
+        return nb, cx.f(ef + '._nmax', 'u64'), ef
+
+    def setup(self, cx):
+        nb, nmax, ef = self.dims(cx)
+        cx.st.dims[ef + '._csrspectrum'] = [nb, nmax]
+        cx.st.dims[ef + '._csrintensity'] = [nb]
+        for ds in ('_csrSpectrum', '_csrIntensity'):
+            cx.st.scal[f'ghost.appended.{ds}.count'] = IntV(I(0), parse_type_str('long'))
+
+    def requires(self, cx):
+        nb, nmax, ef = self.dims(cx)
+        e = cx.arg('ef')
+        return [('static', PS_static(cx)),
+                ('field', And(Not(e.null) if e.null is not None else True, nmax >= 2, nmax < 2 ** 32,
+                              cx.len(ef + '._csrspectrum') == nb * nmax, cx.len(ef + '._csrintensity') == nb)),
+                # what the HDF5File constructor stores (obligations HDF5File#extent.member.*)
+                ('file', And(cx.f('this._nBunches') == nb, cx.f('this._maxn') == nmax / 2))]
+
+    def assigns(self, cx):
+        return [('s', 'ghost.*'), ('r', 'ghost.*'), ('len', 'ghost.*')]
+
+    @property
+    def calls(self):
+        return {'_appendData': AppendCapture()}
+
+    def ensures(self, cx):
+        nb, nmax, ef = self.dims(cx)
+        maxn = nmax / 2
+        b, i = cx.g('b'), cx.g('i')
+        st = cx.st
+        full = cx.a('fullspectrum') != 0
+
+        def cnt(ds):
+            v = st.scal.get(f'ghost.appended.{ds}.count')
+            return v.t if v is not None else I(0)
+
+        def rec(ds, k):
+            FL = parse_type_str('float')
+            off = st.scal.get(f'ghost.appended.{ds}.off')
+            return z3.Select(st.array(f'ghost.appended.{ds}', '', FL), (off.t if off is not None else I(0)) + k)
+
+        def inside(ds, count):
+            off = st.scal.get(f'ghost.appended.{ds}.off')
+            return And(off.t >= 0, off.t + count <= st.len_of(f'ghost.appended.{ds}')) if off is not None else z3.BoolVal(False)
+        spec = cx.old.arr(ef + '._csrspectrum')
+        return [('one_spectrum_record_iff_requested', {'C10'}, cnt('_csrSpectrum') == If(full, I(1), I(0))),
+                ('one_intensity_record', {'C10'}, cnt('_csrIntensity') == 1),
+                ('spectrum_rows_per_bunch', {'C10'}, Implies(And(full, b >= 0, b < nb, i >= 0, i < maxn), rec('_csrSpectrum', b * maxn + i) == z3.Select(spec, b * nmax + i))),
+                ('spectrum_read_inside_buffer', {'C17'}, Implies(full, inside('_csrSpectrum', nb * maxn))),
+                ('intensity_per_bunch', {'C10'}, Implies(And(b >= 0, b < nb), rec('_csrIntensity', b) == cx.old.sel(ef + '._csrintensity', b))),
+                ('intensity_read_inside_buffer', {'C17'}, inside('_csrIntensity', nb))]
+
+    def _inv(self, cx):
+        nb, nmax, ef = self.dims(cx)
+        maxn = nmax / 2
+        b, gb, gi = cx.v('b'), cx.g('b'), cx.g('i')
+        rows = cx.val('rows').name
+        FL = parse_type_str('float')
+        return [('range', And(b >= 0, b <= nb)), ('len', cx.len(rows) == nb * maxn),
+                ('done', Implies(And(gb >= 0, gb < b, gi >= 0, gi < maxn),
+                                 z3.Select(cx.st.array(rows, '', FL), gb * maxn + gi) == cx.old.sel(ef + '._csrspectrum', gb * nmax + gi))),
+                ('src', cx.arr(ef + '._csrspectrum') == cx.old.arr(ef + '._csrspectrum'))]
+
+    def _hints(self, cx, cxb):
+        nb, nmax, ef = self.dims(cx)
+        maxn = nmax / 2
+        b, gb, gi = cxb.v('b'), cx.g('b'), cx.g('i')
+        return [('p1', Implies(b - gb - 1 >= 0, (b - gb - 1) * maxn >= 0)), ('p2', Implies(And(b >= 0, b < nb), (nb - 1 - b) * maxn >= 0)),
+                ('p3', Implies(And(b >= 0, b < nb), (nb - 1 - b) * nmax >= 0)), ('half', maxn * 2 <= nmax)]
+
+    @property
+    def loops(self):
+        l = LoopSpec(inv=self._inv, hints=self._hints)
+        l.split = split_ghost('b', 'b')
+        return {'b#0': l}
+
+
+class HDF5AppendTracks(Contract):
+    """appendTracks(p): every tracked particle is converted to physical coordinates through an axis lookup that stays inside
+    the axis (C15/C17: defined for every position the tracking maps can leave a particle at, i.e. 0 <= x,y <= N-1), particle k
+    of the record is particle k of the list, and the record read stays inside the converted list"""
+    name = 'vfps::HDF5File::appendTracks'
+    tu = 'src/IO/HDF5File.cpp'
+    params = ['p']
+    tags = {'C10', 'C15', 'C17'}
+    ghosts = {'g': 'int'}
+    aux_tus = [('src/PS/PhaseSpace.cpp', 'vfps::')]
+
+    def setup(self, cx):
+        for ds in ('_particles',):
+            cx.st.scal[f'ghost.appended.{ds}.count'] = IntV(I(0), parse_type_str('long'))
+
+    def requires(self, cx):
+        nx, ny, nb = ps_globals(cx)
+        from .sm import Ruler_valid
+        p = cx.arg('p').name
+        ongrid_x = ElemInv(p, 'x', 'real', lambda c, k, v: Implies(And(k >= 0, k < c.len(p)), And(v >= 0, v <= z3.ToReal(c.f(PS_NX)) - 1)))
+        ongrid_y = ElemInv(p, 'y', 'real', lambda c, k, v: Implies(And(k >= 0, k < c.len(p)), And(v >= 0, v <= z3.ToReal(c.f(PS_NY)) - 1)))
+        return [('static', PS_static(cx)), ('axes', And(Ruler_valid(cx, 'this._ps._axis[0]', nx), Ruler_valid(cx, 'this._ps._axis[1]', ny))),
+                ('on_grid.x', ongrid_x), ('on_grid.y', ongrid_y),
+                # main builds the file with nparticles = number of tracked particles
+                ('one_slot_per_particle', cx.len(p) == cx.f('this._nParticles'))]
+
+    def assigns(self, cx):
+        return [('s', 'ghost.*'), ('r', 'ghost.*'), ('len', 'ghost.*')]
+
+    @property
+    def calls(self):
+        return {'_appendData': AppendCapture(), 'reserve': lambda ex, n, st, objn, argn, this_override=None: VoidV()}
+
+    def ensures(self, cx):
+        st = cx.st
+        g = cx.g('g')
+        p = cx.arg('p').name
+        FL = parse_type_str('float')
+        npart = cx.f('this._nParticles')
+        off = st.scal.get('ghost.appended._particles.off')
+        cnt = st.scal.get('ghost.appended._particles.count')
+        if off is None:
+            return [('one_record', {'C10'}, z3.BoolVal(False))]
+        rec = lambda lf, k: z3.Select(st.arr[('ghost.appended._particles', lf)], off.t + k) if ('ghost.appended._particles', lf) in st.arr else None
+        xk = cx.old.sel(p, g, 'x')
+        yk = cx.old.sel(p, g, 'y')
+        tr = lambda t: z3.If(t >= 0, z3.ToInt(t), -z3.ToInt(-t))
+        out = [('one_record', {'C10'}, cnt.t == 1),
+               ('read_inside_list', {'C17'}, And(off.t >= 0, off.t + npart <= st.len_of('ghost.appended._particles')))]
+        if rec('x', g) is not None:
+            out.append(('particle_k_is_particle_k', {'C10', 'C15'}, Implies(And(g >= 0, g < npart),
+                        And(rec('x', g) == cx.old.sel('this._ps._axis[0]._data', tr(xk)), rec('y', g) == cx.old.sel('this._ps._axis[1]._data', tr(yk))))))
+        return out
+
+    def _inv(self, cx):
+        g = cx.g('g')
+        p = cx.arg('p').name
+        i = cx.range_index(1)
+        pc = cx.val('physcords').name
+        tr = lambda t: z3.If(t >= 0, z3.ToInt(t), -z3.ToInt(-t))
+        xk, yk = cx.old.sel(p, g, 'x'), cx.old.sel(p, g, 'y')
+        return [('range', And(i >= 0, i <= cx.len(p))), ('len', cx.len(pc) == i),
+                ('done', Implies(And(g >= 0, g < i), And(cx.sel(pc, g, 'x') == cx.old.sel('this._ps._axis[0]._data', tr(xk)),
+                                                         cx.sel(pc, g, 'y') == cx.old.sel('this._ps._axis[1]._data', tr(yk))))),
+                ('src', And(cx.arr(p, 'x') == cx.old.arr(p, 'x'), cx.arr(p, 'y') == cx.old.arr(p, 'y'),
+                            cx.arr('this._ps._axis[0]._data') == cx.old.arr('this._ps._axis[0]._data'), cx.arr('this._ps._axis[1]._data') == cx.old.arr('this._ps._axis[1]._data')))]
+
+    @property
+    def loops(self):
+        l = LoopSpec(inv=self._inv)
+        l.split = lambda cx, cxb: [('cur', cx.g('g') == cxb.range_index(1)), ('other', Not(cx.g('g') == cxb.range_index(1)))]
+        return {'pos#0': l}
